@@ -1,7 +1,7 @@
 CONSTANTS
   InitPrios <- P123
   SetPrios = {1, 3}
-  SetPrioMsgs = {1, 2, 3, 4}
+  SetPrioMsgs = {2}
   Alphabet <- AlphaReAddAll
   K = 1
   ReAddPinned = FALSE
